@@ -3,5 +3,5 @@ CONSTANTS
   Codecs = {"c1", "c2"}
   MaxBlobs = 3
 INVARIANT TypeInv ExactlyOneAnswer SilentOtherwise WrongNeverAccepted BlobsDense MatchingIffSameModel
-PROPERTY BlobsImmutable TrainOnlyTouchesOneCodec
+PROPERTY BlobsImmutable TrainOnlyTouchesOneCodec BatchIsSequence
 CHECK_DEADLOCK FALSE
